@@ -280,7 +280,7 @@ func cmdVC(args []string) int {
 		if a.Result != "discharged" && a.Result != "cover-ok" {
 			bad++
 			if a.Bad != nil {
-				fmt.Printf("      first failing instance: path %d result %s file %s\n      %s\n", a.Bad.Path, a.Bad.Result, a.Bad.File, a.Bad.Info)
+				fmt.Printf("      first failing instance: path %d [%s] result %s file %s\n      %s\n", a.Bad.Path, a.Bad.Log, a.Bad.Result, a.Bad.File, a.Bad.Info)
 			}
 		}
 	}
@@ -311,6 +311,28 @@ func main() {
 		os.Exit(cmdCheck(os.Args[2:]))
 	case "claim":
 		os.Exit(cmdClaim(os.Args[2:]))
+	case "ssa":
+		P, db, err := loadAll()
+		if err != nil {
+			fmt.Fprintln(os.Stderr, err)
+		}
+		_ = db
+		for _, n := range os.Args[2:] {
+			for _, k := range sortedKeys(P.Funcs) {
+				if k == n || strings.HasSuffix(k, n) {
+					fn := P.Funcs[k]
+					vc := &FuncVC{fn: fn}
+					if fn.Blocks != nil {
+						vc.findLoops()
+					}
+					fmt.Printf("== %s  loops=%d\n", k, len(vc.loops))
+					for _, l := range vc.loops {
+						fmt.Printf("   loop %d header block %d\n", l.ord, l.header.Index)
+					}
+					fn.WriteTo(os.Stdout)
+				}
+			}
+		}
 	case "list":
 		P, db, err := loadAll()
 		if err != nil {
